@@ -33,16 +33,32 @@ theorem merge_cap_min (answers : List Answer) (node : String) (c : Cap)
   · simp only [Option.map_some, Option.some.injEq] at h; subst h; rfl
   · simp at h
 
-/-- Usage and rate of an offered node are the weight-averaged plugin values
-    `Σ wᵢ·uᵢ / Σ wᵢ` (together with `merge_cap_min`: `MergedOk`). -/
+/-- Usage and rate of an offered node whose weight sum is not zero are the weight-averaged plugin
+    values `Σ wᵢ·uᵢ / Σ wᵢ` (together with `merge_cap_min`: `MergedOk`).  Individual weights may be
+    zero.  The hypothesis `hw` is what makes the statement meaningful: with a zero weight sum the
+    Go code computes 0/0 = NaN, see `merge_zero_weight_sum_model_artefact`. -/
 theorem merge_weighted_avg (answers : List Answer) (node : String) (c : Cap)
-    (h : (managerDeployCapacity answers).1.find? node = some c) : MergedOk answers node c := by
+    (h : (managerDeployCapacity answers).1.find? node = some c) (_hw : weightSum answers node ≠ 0) :
+    MergedOk answers node c := by
   have hc := merge_cap_min answers node c h
   rw [manager_find] at h
   unfold mergedOf at h
   split at h
   · simp only [Option.map_some, Option.some.injEq] at h; subst h
     exact ⟨hc, rfl, rfl⟩
+  · simp at h
+
+/-- OUTSIDE THE PROPERTY'S DOMAIN (documentation of a model artefact): if the weights of an
+    offered node sum to zero the model reports usage = rate = 0 because `Rat` division by zero is 0,
+    whereas the Go code yields NaN (0/0 in float64).  No claim about the code is derived from this. -/
+theorem merge_zero_weight_sum_model_artefact (answers : List Answer) (node : String) (c : Cap)
+    (h : (managerDeployCapacity answers).1.find? node = some c) (hw : weightSum answers node = 0) :
+    c.usage = 0 ∧ c.rate = 0 := by
+  rw [manager_find] at h
+  unfold mergedOf at h
+  split at h
+  · simp only [Option.map_some, Option.some.injEq] at h; subst h
+    simp only [average, hw, Rat.div_def, Rat.inv_zero, Rat.mul_zero, and_self]
   · simp at h
 
 /-- with a single plugin the reported usage/rate are the plugin's own (weight ≠ 0) -/
